@@ -8,27 +8,27 @@ from legs import PROPS
 TEXT = {
  "C01": dict(
   technique="runtime monitoring: recorded stream history vs exactly-once/order oracle; Miri + TSan on the same workload",
-  level="Exploration over schedules and inputs: thousands of multi-producer histories against the real BackgroundQueue with unique ids, seeded schedule perturbation at hook points, scripted per-entry stream errors; an offline checker over the stream's call log decides exactly-once, per-producer order and 'nothing else but the rate-limited report entry'. Miri explores schedules of a tiny instance and watches for data races/UB/leaks; TSan watches the native stress (thorough). Held on the executions produced, nothing more. Also histories without a metrics recorder, and a tracing subscriber installed after the queue was built. Scenarios: last queue handle dropped while the writer is held inside the stream (forgotten / live join handle); shutdown arriving in an old, stalled writer iteration; a leg with a subscriber that filters everything.",
+  level="Exploration over schedules and inputs: thousands of multi-producer histories against the real BackgroundQueue with unique ids, seeded schedule perturbation at hook points, scripted per-entry stream errors; an offline checker over the stream's call log decides exactly-once, per-producer order and 'nothing else but the rate-limited report entry'. Miri explores schedules of a tiny instance and watches for data races/UB/leaks; TSan watches the native stress (thorough). Held on the executions produced, nothing more. Also histories without a metrics recorder, and a tracing subscriber installed after the queue was built. Scenarios: last queue handle dropped while the writer is held inside the stream (forgotten / live join handle); shutdown arriving in an old, stalled writer iteration; a leg with a subscriber that filters everything. Pipelines: appends made on a writer thread (a stream forwarding into another queue / feeding its own queue).",
   note="Trusted: the recording stream (logs under its own lock on the writer thread), the harness flow control that keeps the queue from overflowing (confirmed per history by a local metrics recorder), Miri/TSan themselves.",
   ref="DESIGN.md §7 C01"),
  "C04": dict(
   technique="runtime monitoring: barrier oracle over recorded stream history (incl. gated stream making early completion definite), logical-unit progress bound, stepping the real WakerTracker via hook; Miri + TSan",
-  level="Exploration over schedules and histories. Monitor 1: multi-thread histories with flush requests from every thread; every entry whose append returned before a completed request must be in the stream log before the completion with a stream flush after the last of them; in the gated variant the stream's next()/flush() are held closed and a Ready future is a definite violation. Monitor 2: never-empty queue with a fuel-gated stream: Ready within roundup32(capacity)+64 consumed entries (logical units, no clock). Monitor 3: the real WakerTracker (hook H3) stepped through every op sequence up to a length bound for capacities 1-4 and 10^5-10^6 random long ones, asserting S1/S2/L1. Special scenarios: parked writer with 59 s interval, after shutdown, racing with shutdown. Special scenarios: a request pending with a backlog when shutdown begins (stream fed one entry at a time), bursts of up to 20000 outstanding requests while the writer is held. Streams that refuse entries (errors still count as writer progress).",
+  level="Exploration over schedules and histories. Monitor 1: multi-thread histories with flush requests from every thread; every entry whose append returned before a completed request must be in the stream log before the completion with a stream flush after the last of them; in the gated variant the stream's next()/flush() are held closed and a Ready future is a definite violation. Monitor 2: never-empty queue with a fuel-gated stream: Ready within roundup32(capacity)+64 consumed entries (logical units, no clock). Monitor 3: the real WakerTracker (hook H3) stepped through every op sequence up to a length bound for capacities 1-4 and 10^5-10^6 random long ones, asserting S1/S2/L1. Special scenarios: parked writer with 59 s interval, after shutdown, racing with shutdown. Special scenarios: a request pending with a backlog when shutdown begins (stream fed one entry at a time), bursts of up to 20000 outstanding requests while the writer is held. Streams that refuse entries (errors still count as writer progress). Monitor 2 also with a lock-step producer keeping a small constant backlog.",
   note="Trusted: recording stream log; 'never' is decided by a progress watchdog (20 s without a meaningful event) only together with logical evidence. Monitor 3 drives the tracker through a cfg(metrique_verif) wrapper that forwards to the private methods unchanged.",
   ref="DESIGN.md §7 C04"),
  "C05": dict(
   technique="runtime monitoring: recorded stream history + Drop/thread-exit observation vs shutdown oracle; Miri (leak/race) + TSan",
-  level="Exploration over histories and schedules: typed/boxed/global-attached queues, 1-4 client threads with clones and flushes, racer threads appending across the drop, writer optionally held inside next()/flush() so that a backlog exists when the handle is dropped; forget path included. Oracle over the stream log and the Drop / thread-exit tickets. Backlogs of up to 70000 entries at shutdown; queues with and without a metrics recorder. Racers through the global itself; drops by unwinding; retained flush futures; writer held inside the metrics recorder; runs of I/O errors; shutdown under sustained load bounded in hook-counted loop iterations.",
+  level="Exploration over histories and schedules: typed/boxed/global-attached queues, 1-4 client threads with clones and flushes, racer threads appending across the drop, writer optionally held inside next()/flush() so that a backlog exists when the handle is dropped; forget path included. Oracle over the stream log and the Drop / thread-exit tickets. Backlogs of up to 70000 entries at shutdown; queues with and without a metrics recorder. Racers through the global itself; drops by unwinding; retained flush futures; writer held inside the metrics recorder; runs of I/O errors; shutdown under sustained load bounded in hook-counted loop iterations. The last two handles of a forgotten queue dropped at the same moment; a refused tail of the backlog.",
   note="Trusted: Drop impl of the recording stream and a TLS destructor on the writer thread as observation points; capacity is chosen so the queue never overflows in these histories.",
   ref="DESIGN.md §7 C05"),
  "C09": dict(
   technique="runtime monitoring: gate-controlled sequential histories vs reference ring (exact), concurrent histories vs linearization-invariant constraints; Miri + TSan",
-  level="Exploration over histories and schedules: (a) deterministic sequential histories (writer held inside next() with one entry in hand) compared exactly with a displace-oldest reference ring incl. the overflow counter; (b) 1-6 producers against a stalled/slow/free writer: per-producer order, conservation appended = delivered + overflow counter, every lost entry has >= capacity later appends; appends must return while the stream gate is closed. Scripted I/O errors of every kind and pending flush requests in overflow histories; global recorder with named queues; 16 KiB entries; appends during a pending shutdown.",
+  level="Exploration over histories and schedules: (a) deterministic sequential histories (writer held inside next() with one entry in hand) compared exactly with a displace-oldest reference ring incl. the overflow counter; (b) 1-6 producers against a stalled/slow/free writer: per-producer order, conservation appended = delivered + overflow counter, every lost entry has >= capacity later appends; appends must return while the stream gate is closed. Scripted I/O errors of every kind and pending flush requests in overflow histories; global recorder with named queues; 16 KiB entries; appends during a pending shutdown. capacity set first, in the middle or last among the builder calls.",
   note="Trusted: the gate protocol that makes (a) sequential (waits for the stream's own 'blocked' flag); local metrics recorder for the counter.",
   ref="DESIGN.md §7 C09"),
  "C02": dict(
   technique="runtime monitoring: differential of formatter output against a strict RFC 8259 parser over generated hostile entries/configurations; Miri + ASan on the unsafe string path",
-  level="Exploration over inputs and configurations: ~10^5-10^6 generated entries per run (hostile names/strings, NaN/inf/zero-occurrence observations in every position with all skip masks enumerated for lists up to 6, all units, dimensions, flags, every listed defect, in-band errors) x formatter configurations x sampling; the oracle parses every emitted line strictly and checks the _aws structure; a validation error must leave zero bytes. Formats into failing writers are interleaved so that a later success on the same formatter is also checked. Every third plain format goes to an output that takes only a few bytes per (vectored) call.",
+  level="Exploration over inputs and configurations: ~10^5-10^6 generated entries per run (hostile names/strings, NaN/inf/zero-occurrence observations in every position with all skip masks enumerated for lists up to 6, all units, dimensions, flags, every listed defect, in-band errors) x formatter configurations x sampling; the oracle parses every emitted line strictly and checks the _aws structure; a validation error must leave zero bytes. Formats into failing writers are interleaved so that a later success on the same formatter is also checked. Every third plain format goes to an output that takes only a few bytes per (vectored) call. One formatter kept for 86 000 format calls with dimension sets dormant for more than 2^16 calls.",
   note="Trusted: vcommon::strict_json (cross-checked against serde_json on every line; disagreement = inconclusive).",
   ref="DESIGN.md §7 C02"),
  "C03": dict(
@@ -38,57 +38,57 @@ TEXT = {
   ref="DESIGN.md §7 C03"),
  "C08": dict(
   technique="runtime monitoring: reference validity predicate + transparency differential + duplicate-member detection, in debug and release builds",
-  level="Exploration over inputs and configurations in both build profiles: valid entries with 0-3 injected defects of every listed kind; must-reject entries have to yield a validation error and zero bytes wherever validation is documented to be on; valid entries must be accepted with output identical (multiset of lines) to the non-validating formatter, also on a long-lived formatter after earlier rejected entries; every accepted record is scanned for duplicate member names by a duplicate-preserving parser. Known finding F4 is matched by signature and reported as KNOWN-FINDING. Wide entries with 40-170 distinct per-metric dimension sets. Error-report entries interleaved; owned and borrowed names.",
+  level="Exploration over inputs and configurations in both build profiles: valid entries with 0-3 injected defects of every listed kind; must-reject entries have to yield a validation error and zero bytes wherever validation is documented to be on; valid entries must be accepted with output identical (multiset of lines) to the non-validating formatter, also on a long-lived formatter after earlier rejected entries; every accepted record is scanned for duplicate member names by a duplicate-preserving parser. Known finding F4 is matched by signature and reported as KNOWN-FINDING. Wide entries with 40-170 distinct per-metric dimension sets. Error-report entries interleaved; owned and borrowed names. Per-metric dimensions through iterators with inexact size hints.",
   note="Trusted: the reference predicate; 'validation promised' = Emf::all_validations in every profile, Emf::builder() only with debug assertions (as documented).",
   ref="DESIGN.md §7 C08"),
  "C14": dict(
   technique="runtime monitoring: differential long-lived formatter vs fresh formatter at every position of generated entry sequences",
-  level="Exploration over histories: sequences of 2-20 items (valid, each defect, split, entry dimensions, in-band error report, multi-megabyte, failing writer) on one long-lived plain or sampled formatter; at every position decision and records must equal those of a fresh formatter. Per-metric dimension sets are shared across the entries of a sequence. Per-item call mode on sampled formatters; entries with hundreds of thousands of observations.",
+  level="Exploration over histories: sequences of 2-20 items (valid, each defect, split, entry dimensions, in-band error report, multi-megabyte, failing writer) on one long-lived plain or sampled formatter; at every position decision and records must equal those of a fresh formatter. Per-metric dimension sets are shared across the entries of a sequence. Per-item call mode on sampled formatters; entries with hundreds of thousands of observations. The in-band error report merged with globals that provide the default dimensions.",
   note="Trusted: multiset-of-lines comparison; Timestamp masking for entries without timestamp (with a lower bound check).",
   ref="DESIGN.md §7 C14"),
  "C16": dict(
   technique="runtime monitoring with fault injection: scripted io::Write / EntryIoStream objects, byte-exact oracle against reference records; Miri + ASan on the vectored-write loop",
-  level="Fault enumeration: for every generated record (single, multi-namespace, split into 2-4 lines) every first-write size k in 1..L is tried for vectored and plain writers, then hundreds of random scripts of short writes / Interrupted / Ok(0) / hard errors; received bytes must be a permutation of the reference lines (or a prefix of one on error) and the next entry must be intact. Sinks (queue, FlushImmediately x3, tee) are driven with streams that fail per entry and on flush; each stream must see every entry exactly once. Hard errors of every kind incl. WouldBlock with retry detection; output_to_makewriter path; flush after every append of immediate-flush sinks; eight queues failing together with writers running flat out.",
+  level="Fault enumeration: for every generated record (single, multi-namespace, split into 2-4 lines) every first-write size k in 1..L is tried for vectored and plain writers, then hundreds of random scripts of short writes / Interrupted / Ok(0) / hard errors; received bytes must be a permutation of the reference lines (or a prefix of one on error) and the next entry must be intact. Sinks (queue, FlushImmediately x3, tee) are driven with streams that fail per entry and on flush; each stream must see every entry exactly once. Hard errors of every kind incl. WouldBlock with retry detection; output_to_makewriter path; flush after every append of immediate-flush sinks; eight queues failing together with writers running flat out. A long record through a 1-3-byte writer that is interrupted before every successful call.",
   note="Trusted: the scripted writer/stream as fault model; reference bytes from a Vec writer.",
   ref="DESIGN.md §7 C16"),
  "C06": dict(
   technique="runtime monitoring: append events at a counting sink vs reference condition over exhaustively enumerated single-thread histories and concurrent drop/creation histories; Miri + TSan",
-  level="Exploration over histories and schedules: (a) every single-thread create/drop history over owner, <=3 handles, <=3 flush guards, <=2 force-flush guards within an object bound is executed against the real types and the append count is compared with the reference condition after every operation; (b) the drops of random histories are dealt to 2-4 threads (perturbed at the keep-alive hook points) and flush guards are created concurrently from &owner; exactly one append, not before the drops any linearization needs, content = the owner's last tokens. Miri checks the UnsafeCell / unsafe Send+Sync protocol for races, UB and leaks. Drops by unwinding, Debug observers, force-flush guards created after concurrent flush guards, entries after a caught sink panic, stale force-flush guards of earlier entries.",
+  level="Exploration over histories and schedules: (a) every single-thread create/drop history over owner, <=3 handles, <=3 flush guards, <=2 force-flush guards within an object bound is executed against the real types and the append count is compared with the reference condition after every operation; (b) the drops of random histories are dealt to 2-4 threads (perturbed at the keep-alive hook points) and flush guards are created concurrently from &owner; exactly one append, not before the drops any linearization needs, content = the owner's last tokens. Miri checks the UnsafeCell / unsafe Send+Sync protocol for races, UB and leaks. Drops by unwinding, Debug observers, force-flush guards created after concurrent flush guards, entries after a caught sink panic, stale force-flush guards of earlier entries. The entry must have reached the sink by the time the last owner/handle drop (or the releasing force-flush drop) has returned.",
   note="Trusted: the counting sink (ticket under its lock) as observation point; LIFO symmetry reduction among guards of one kind.",
   ref="DESIGN.md §7 C06"),
  "C10": dict(
   technique="runtime monitoring: conservation oracle over aggregates received by an inspector sink, unique input ids; Miri + TSan",
-  level="Exploration over histories, schedules and inputs: inputs with unique ids and colliding (or thousands of distinct) keys merged into KeyedAggregator (by value/ref, several flush epochs), TeeSink, embedded Aggregate / MutexSink with merge-on-drop guards, WorkerSink with 1-8 producers, flush barriers and drop of the last handle. The oracle partitions the emitted aggregates by input id and checks sum / distribution / keep-last / one aggregate per key and flush / flush barrier / worker termination. Producers also request flushes concurrently with each other against a sometimes lagging worker; a hand-written Key whose Hash is coarser than its Eq. Nested distributions with repeated observations; contended MutexSink close; concurrent last drops and cancelled flushes on the worker sink.",
+  level="Exploration over histories, schedules and inputs: inputs with unique ids and colliding (or thousands of distinct) keys merged into KeyedAggregator (by value/ref, several flush epochs), TeeSink, embedded Aggregate / MutexSink with merge-on-drop guards, WorkerSink with 1-8 producers, flush barriers and drop of the last handle. The oracle partitions the emitted aggregates by input id and checks sum / distribution / keep-last / one aggregate per key and flush / flush barrier / worker termination. Producers also request flushes concurrently with each other against a sometimes lagging worker; a hand-written Key whose Hash is coarser than its Eq. Nested distributions with repeated observations; contended MutexSink close; concurrent last drops and cancelled flushes on the worker sink. A float sort-and-merge distribution fed NaNs of both signs, infinities and -0.0 next to the integer one.",
   note="Trusted: inspector sink; Drop wrapper around the inner sink for termination; progress watchdog with the flush-call counter as evidence.",
   ref="DESIGN.md §7 C10"),
  "C11": dict(
   technique="runtime monitoring: differential of closed histogram observations against the recorded inputs (sorted matching), atomic vs non-atomic vs concurrent, re-aggregation; TSan",
-  level="Exploration over inputs and schedules: every bucket boundary of the layout (from the formula) +-1, dense linear region, log-uniform values, repeated observations up to 2^40 occurrences, integer/float/Duration/unit-converted sources; conservation of counts, per-observation error bound, exact sort-and-merge output, equality of atomic / non-atomic / concurrently recorded histograms, and re-aggregation stability. Several recording windows through one strategy object with drain() in between; threads released together into a fresh shared histogram. Zero-occurrence observations; Miri leg.",
+  level="Exploration over inputs and schedules: every bucket boundary of the layout (from the formula) +-1, dense linear region, log-uniform values, repeated observations up to 2^40 occurrences, integer/float/Duration/unit-converted sources; conservation of counts, per-observation error bound, exact sort-and-merge output, equality of atomic / non-atomic / concurrently recorded histograms, and re-aggregation stability. Several recording windows through one strategy object with drain() in between; threads released together into a fresh shared histogram. Zero-occurrence observations; Miri leg. Negative zero; Duration sources with sub-microsecond parts, their conversion checked against harness arithmetic.",
   note="Trusted: the value of a Repeated source is total/n in f64; counts < 2^40.",
   ref="DESIGN.md §7 C11"),
  "C12": dict(
   technique="runtime monitoring: exact-rational oracle on the hooked rate->weight split, scripted-RNG differential on sampling decisions, invariants on hooked congressional rates",
-  level="Exploration over inputs and histories: the weight split is checked against the exact rational 1/rate for millions of f32 rates (thorough: every f32 in (0,1]) at both extreme draws incl. the expectation; the public sampled formatter's Counts must imply that one weight; FixedFractionSample/CongressSample decisions are compared with draw <= rate where the draw is recomputed by rand itself (the draw == rate boundary is forced); congressional rates are checked after every manually ended interval of random appear/disappear/burst histories. Congress intervals are shaped to land exactly on, one above and one below the target. Draws forced onto the congress rate boundary; steady scenarios with known group frequencies (ordering judged without the sampler's own averages).",
+  level="Exploration over inputs and histories: the weight split is checked against the exact rational 1/rate for millions of f32 rates (thorough: every f32 in (0,1]) at both extreme draws incl. the expectation; the public sampled formatter's Counts must imply that one weight; FixedFractionSample/CongressSample decisions are compared with draw <= rate where the draw is recomputed by rand itself (the draw == rate boundary is forced); congressional rates are checked after every manually ended interval of random appear/disappear/burst histories. Congress intervals are shaped to land exactly on, one above and one below the target. Draws forced onto the congress rate boundary; steady scenarios with known group frequencies (ordering judged without the sampler's own averages). Two-pair sample groups in alternating pair order, validate_groups off in half of the steady scenarios.",
   note="Trusted: u128 rational arithmetic; hooks H5/H6 forward to the private functions unchanged.",
   ref="DESIGN.md §7 C12"),
  "C13": dict(
   technique="runtime monitoring: entries at a counting sink vs reference over exhaustively enumerated op sequences and concurrent drops; Miri + TSan",
-  level="Exploration over histories and schedules: every single-thread op sequence up to a depth bound over a parent with a Slot and a LazySlot (open wait/discard incl. second open, mutate, drop guard, wait_for_data, force-flush guard) is executed and the appended entries compared with the reference after every op; concurrently, parent / guards / force guard are dropped on separate threads with perturbation between the guard's send and the release of its flush guard. wait_for_data called repeatedly; guards dropped by unwinding (panic) as well as normally. Budget-exhausted tokio task; deprecated open_slot path; release-profile leg.",
+  level="Exploration over histories and schedules: every single-thread op sequence up to a depth bound over a parent with a Slot and a LazySlot (open wait/discard incl. second open, mutate, drop guard, wait_for_data, force-flush guard) is executed and the appended entries compared with the reference after every op; concurrently, parent / guards / force guard are dropped on separate threads with perturbation between the guard's send and the release of its flush guard. wait_for_data called repeatedly; guards dropped by unwinding (panic) as well as normally. Budget-exhausted tokio task; deprecated open_slot path; release-profile leg. delay_flush on open guards of either mode; a persistent observer Debug-formats a wait-mode guard while flush_guard() is taken.",
   note="Trusted: counting sink; linearization-invariant assertions only in the concurrent part.",
   ref="DESIGN.md §7 C13"),
  "C07": dict(
   technique="runtime monitoring over generated programs: the real proc-macro compiles generated type trees, their emitted items are compared with an independent naming reference",
-  level="Translation validation over programs: each run generates hundreds (thorough: thousands) of #[metrics] type trees covering every attribute combination of the statement, has the real macro compile them, runs them, and compares the ordered (name, value, unit, kind) items and the sample group of every closed root with a reference built on the Inflector crate. Known finding F8 (sample-group keys lack flatten prefixes) is matched by an exact signature and reported as KNOWN-FINDING. Identifiers with acronym runs / underscores / leading capitals, prefix texts in both roles, names of 98..104 bytes by construction.",
+  level="Translation validation over programs: each run generates hundreds (thorough: thousands) of #[metrics] type trees covering every attribute combination of the statement, has the real macro compile them, runs them, and compares the ordered (name, value, unit, kind) items and the sample group of every closed root with a reference built on the Inflector crate. Known finding F8 (sample-group keys lack flatten prefixes) is matched by an exact signature and reported as KNOWN-FINDING. Identifiers with acronym runs / underscores / leading capitals, prefix texts in both roles, names of 98..104 bytes by construction. no_close fields with and without unit; prefix chains of three and four segments crossing 100 bytes early and late.",
   note="Trusted: the naming reference and Inflector; rustc/cargo; the recording writer. Programs that do not compile are inconclusive.",
   ref="DESIGN.md §7 C07"),
  "C15": dict(
   technique="runtime monitoring: differential of recorded call logs, plain entry vs wrapped entry, against the documented effect of each wrapper",
-  level="Exploration over inputs: generated entries (incl. errors, empty values, repeated names, configs, sample groups) under random compositions (depth <= 4) of boxed/Box/Option/Arc/Cow/merge/WithGlobalDimensions/WithDimensions/ForceFlag, values nested in Option/Box/Arc/Cow/&/WithDimensions/ForceFlag to depth 3, the stream/format adapters, RootEntry; ordered call log and sample group must equal the documented function of the plain entry's. Long-lived adapters with downstream failures in between; inexact sample-group size hints; an entry after an unwound boxed write.",
+  level="Exploration over inputs: generated entries (incl. errors, empty values, repeated names, configs, sample groups) under random compositions (depth <= 4) of boxed/Box/Option/Arc/Cow/merge/WithGlobalDimensions/WithDimensions/ForceFlag, values nested in Option/Box/Arc/Cow/&/WithDimensions/ForceFlag to depth 3, the stream/format adapters, RootEntry; ordered call log and sample group must equal the documented function of the plain entry's. Long-lived adapters with downstream failures in between; inexact sample-group size hints; an entry after an unwound boxed write. A flag constructor returning no flag; zero-sized config objects sharing one address.",
   note="Trusted: recording writer; the expected-effect functions in checks/src/bin/c15_wrappers.rs.",
   ref="DESIGN.md §7 C15"),
  "C17": dict(
   technique="runtime monitoring: op histories dispatched to threads/runtimes vs a reference routing state machine; racing appends vs detach with an exactly-one oracle; TSan",
-  level="Exploration over histories and schedules: random histories of attach / detach / thread-local and runtime test sinks / append / try_append / sink() on 3 worker threads x {no runtime, 2 runtimes}, every outcome (destination, documented panic, entry handed back) compared with the reference; appends racing with the detach of a BackgroundQueue-backed attachment must be Ok <=> written before the detach returned. 2-4 threads attaching to a detached global at the same moment (exactly one may win). Drops by unwinding; noisy histories (contention from another runtime's context, rejected attaches); same-named global types; routing restored only after the detached sink flushed.",
+  level="Exploration over histories and schedules: random histories of attach / detach / thread-local and runtime test sinks / append / try_append / sink() on 3 worker threads x {no runtime, 2 runtimes}, every outcome (destination, documented panic, entry handed back) compared with the reference; appends racing with the detach of a BackgroundQueue-backed attachment must be Ok <=> written before the detach returned. 2-4 threads attaching to a detached global at the same moment (exactly one may win). Drops by unwinding; noisy histories (contention from another runtime's context, rejected attaches); same-named global types; routing restored only after the detached sink flushed. attach_to_stream() (also inside runtime contexts / on threads with test sinks); appends that panic inside the destination.",
   note="Trusted: the reference state machine; counting sinks; recording stream of the detached queue.",
   ref="DESIGN.md §7 C17"),
  "C18": dict(
